@@ -64,6 +64,9 @@ CHECKS = {
  "C08": dict(cat="fault_enumeration", tech="enumeration of process crashes at every database round trip (before the request / after the commit) of a complete real DKG run; OnCommit sync-position monitor; chain-side transaction log checks; twin comparison with the crash-free run",
    text="Three keypers made of repository code only (SyncAppWithDB, handleOnChainChanges, SendShutterMessages with the real RPCMessageSender) run a complete DKG over the real shuttermint app; for each keyper a crash is injected before each of its ~410 database round trips and after each of its ~30 committing ones, followed by a restart on the same database (thorough: pairs of crashes). Checked: sync position advances by exactly one block per commit, never two different commitments per eon, every poly eval on chain verifies against the published commitment, outbox drained, same DKG outcome, same final database state and same order of accepted messages as the crash-free twin.",
    note="Go toolchain; pgmem fault plans (committed => durable; frozen connections after the crash point); smchain (harness-chosen block boundaries); dkgsim; keyper verif hooks", ref="§3 C08"),
+ "C07": dict(cat="fault_enumeration", tech="complete DKG runs with harness-played Byzantine keypers (exhaustive strategy product for n=3,t=2; sampled n=4,5) and seeded block schedules; post-run monitor over the honest keypers' dkg_result rows: cross-keyper equality, secret-share/public-share pairing check, trial threshold decryption with every t-subset",
+   text="Honest keypers are repository code only (SyncAppWithDB, handleOnChainChanges, SendShutterMessages) over the real shuttermint app; Byzantine keypers are played by the harness with the library's PureDKG plus a strategy (commitment correct/none/wrong degree/duplicate, per-victim evaluation correct/wrong/none, false accusation, apology correct/wrong/none, in phase/after phase; sampled families add undecryptable and non-canonical evaluations, early accusations, unsolicited apologies, wrong-eon and outsider-naming messages). For every finished eon: all honest keypers reporting success hold the same eon public key and share vector, each secret share verifies against its public share, every t-subset of them decrypts a trial message; all-honest runs whose dealing messages landed in phase must all succeed; on-chain result votes equal the stored rows.",
+   note="Go toolchain; pgmem; smchain (harness-chosen block boundaries); dkgsim; keyper verif hooks; shlib puredkg/shcrypto as the Byzantine player's toolbox and for the pairing/decryption oracle", ref="§3 C07"),
 }
 
 NOT_APPLICABLE = {
